@@ -171,7 +171,7 @@ func (ex *Exec) multi(e ast.Expr, n int) []Term {
 			if ts.Kind == KAny {
 				return []Term{Ite(ok, v, Term{"nilAny", SAny}), ok}
 			}
-			return []Term{Ite(ok, ex.U.Unbox(t, v), ex.U.Zero(ts)), ok}
+			return []Term{ex.wf(Ite(ok, ex.U.Unbox(t, v), ex.U.Zero(ts))), ok}
 		}
 	case *ast.UnaryExpr:
 		if x.Op == token.ARROW {
@@ -414,7 +414,7 @@ func (ex *Exec) typeSwitch(x *ast.TypeSwitchStmt) {
 		ex.st = a
 		if iv, ok := ex.info.Implicits[cc].(*types.Var); ok {
 			if len(cc.List) == 1 && single != nil && ex.U.SortOf(single).Kind != KAny {
-				ex.declare(iv, ex.U.Unbox(single, v))
+				ex.declare(iv, ex.wf(ex.U.Unbox(single, v)))
 			} else {
 				ex.declare(iv, v)
 			}
@@ -692,7 +692,7 @@ func (ex *Exec) rangeStmt(x *ast.RangeStmt, label string) {
 		ctx.idx, ctx.hasIdx = idx, true
 		ex.st = bodySt
 		bind(x.Key, idx, types.Typ[types.Int])
-		bind(x.Value, ex.U.SeqAt(coll, idx), elemT)
+		bind(x.Value, ex.wf(ex.U.SeqAt(coll, idx)), elemT)
 		ex.block(x.Body.List)
 		for _, cs := range ctx.conts {
 			ex.st = ex.merge(ex.st, cs)
@@ -723,7 +723,7 @@ func (ex *Exec) rangeStmt(x *ast.RangeStmt, label string) {
 		ex.fact(Term{"(select (select " + d0.S + " " + coll.S + ") " + k.S + ")", SBool})
 		ex.fact(Not(Eq(coll, Term{"0", coll.Sort})))
 		bind(x.Key, k, ut.Key())
-		bind(x.Value, Term{"(select (select " + h0.S + " " + coll.S + ") " + k.S + ")", coll.Sort.Elem}, ut.Elem())
+		bind(x.Value, ex.wf(Term{"(select (select " + h0.S + " " + coll.S + ") " + k.S + ")", coll.Sort.Elem}), ut.Elem())
 		ex.note("map range: arbitrary key of the entry domain each iteration (order and exhaustiveness not modelled)")
 		ex.block(x.Body.List)
 		for _, cs := range ctx.conts {
